@@ -68,6 +68,37 @@ def gen_name(rnd):
     return name + mod + rnd.choice(SUFFIX)
 
 
+def derive(name, rnd):
+    """names built to COLLIDE with `name` or with each other on the expected id: digits pulled apart, a bracketed edition /
+    year written as a plain word, the acronym of a several-word name as a one-word name and as the first word of a longer
+    one, a prefix of the words, a longer name starting with all the words"""
+    out = []
+    words = name.split()
+    m = re.search(r"\d{2,}", name)
+    if m:
+        d = m.group(0)
+        out.append(name[:m.start()] + " ".join(d) + name[m.end():])
+        out.append(name[:m.start()] + d[0] + " " + d[1:] + name[m.end():])
+    b = re.search(r" \(([^)]*)\)", name)
+    if b:
+        inner = b.group(1)
+        out.append(name[:b.start()] + " " + inner.capitalize() + name[b.end():])
+        out.append(name[:b.start()] + name[b.end():])
+    else:
+        out.append(name + rnd.choice([" (java)", " (2017)", " Java", " 2017", " 2 0 1 7"]))
+    alpha = [w for w in words if w[:1].isalpha()]
+    if len(alpha) >= 2:
+        acr = "".join(w[0] for w in alpha).capitalize()
+        out.append(acr)
+        out.append(acr + " " + " ".join(alpha[1:]))
+        out.append(" ".join(words[:-1]))
+    if words:
+        out.append(name + " " + rnd.choice(["2", "II", "of", "Mod", words[0]]))
+        out.append(words[0])
+        out.append(words[0] + " " + " ".join(w.lower() for w in words[1:]))
+    return [o for o in out if o.strip()]
+
+
 def hx(s):
     return s.encode().hex() or "-"
 
@@ -88,7 +119,10 @@ def run(rep, tier, seed, replay=None):
         vlib.correspond(rep, replay, oracle=netprops.crash_oracle, tag="c20")
         return
     nnames = 250 if tier == "quick" else 6000
-    names = sorted({gen_name(rnd) for _ in range(nnames)})
+    names = {gen_name(rnd) for _ in range(nnames)}
+    for base in sorted(names)[:: (4 if tier == "quick" else 2)] + ["Area 51", "Minecraft (java)", "Day of Defeat", "Quake 42", "Quake IV 2", "Foo (2017)"]:
+        names.update(derive(base, rnd))
+    names = sorted(names)
     tables = json.load(open(os.path.join(vlib.WORK, "games.json")))
     shipped = [(d["id"], d["name"]) for d in tables["defs"]]
     # number_to_words is a parameter of the model: fill the table from the real crate
@@ -149,6 +183,30 @@ def run(rep, tier, seed, replay=None):
             pid = rnd.choice(sorted(a) + ["wrong", "dod"]) or "e"
             pairs.append(f"{hx(pid)}:{hx(names[i])}")
         lists.append(f"l{k} idcheck {table} " + ",".join(pairs))
+    # lists of games that COLLIDE: names bucketed by an expected id they share (as reported by the checker itself in the
+    # first phase), 2-4 of a bucket in every order of a small sample, each proposing the shared id, another expected id or a wrong one
+    buckets = {}
+    for i, nm in enumerate(names):
+        for x in (expected_set(impl.get(f"a{i}j0", ""), junk[0]) or set()):
+            if x:
+                buckets.setdefault(x, []).append(nm)
+    import itertools
+    nl = 0
+    for x in sorted(buckets):
+        group = sorted(set(buckets[x]))
+        if len(group) < 2:
+            continue
+        rep.count("colliding-bucket")
+        picks = [group] if len(group) <= 4 else [rnd.sample(group, 4) for _ in range(2)]
+        for pick in picks:
+            orders = list(itertools.permutations(pick))
+            for order in (orders if len(orders) <= 6 else rnd.sample(orders, 6 if tier == "quick" else 24)):
+                pairs = [f"{hx(rnd.choice([x, x, 'wrong', x + '2']))}:{hx(nm)}" for nm in order]
+                lists.append(f"lc{nl} idcheck {table} " + ",".join(pairs))
+                nl += 1
+        if nl > (1500 if tier == "quick" else 40000):
+            break
+    rep.count("colliding-lists", nl)
     shipped_case = "shipped idcheck " + table + " " + ",".join(f"{hx(i)}:{hx(n)}" for i, n in shipped)
 
     def oracle2(case, out, model_out, panic):
